@@ -54,7 +54,14 @@ def gclass(b):
     return "other"
 
 
+# number tokens that are malformed or denote no double: reported / skipped like any other noise, and nothing of them may
+# stick to the numbers that follow
+BROKEN_NUMBERS = [b"-.", b"- ", b"2e", b"1.5E-", b"1e999", b"2e+", b"-e", b"1.5e400", b"-1e999", b"12e", b"0.e", b"1e+", b"-1.5e", b"3E"]
+
+
 def gen_token(rng):
+    if rng.random() < 0.12:
+        return rng.choice(BROKEN_NUMBERS)
     n = rng.choice((1, 1, 1, 2, 3, 6))
     return bytes(rng.choice(SPECIAL) if rng.random() < 0.5 else rng.choice(GARBAGE_BYTES) for _ in range(n))
 
@@ -98,7 +105,7 @@ def build(unit, with_noise=True, only_gap=None, upto_value=None):
             pos += len(w)
             if first is None:
                 # a truncated value becomes malformed only where the input ends
-                first = pos if t not in TRUNCATED else None
+                first = (pos if t not in BROKEN_NUMBERS else pos + len(t) - 1) if t not in TRUNCATED else None
                 if first is None:
                     trunc_first = True
             out.append(t)
